@@ -15,6 +15,7 @@ import (
 	"github.com/wrgl/wrgl/pkg/objects"
 	"github.com/wrgl/wrgl/pkg/progress"
 	"github.com/wrgl/wrgl/pkg/sorter"
+	"github.com/wrgl/wrgl/pkg/vhook"
 )
 
 type Merger struct {
@@ -101,6 +102,7 @@ func (m *Merger) mergeTables(colDiff *diff.ColDiff, mergeChan chan<- *Merge, err
 	}
 
 	for {
+		vhook.Yield("merge.recv")
 		chosen, recv, ok := reflect.Select(cases)
 		if !ok {
 			closed[chosen] = true
@@ -153,6 +155,7 @@ func (m *Merger) mergeTables(colDiff *diff.ColDiff, mergeChan chan<- *Merge, err
 			errChan <- fmt.Errorf("resolve error: %v", err)
 			return
 		}
+		vhook.Yield("merge.send")
 		mergeChan <- obj
 	}
 }
